@@ -1,6 +1,59 @@
 """D-TXN pipeline shared by C11 (mode txn) and C10 (mode eos)."""
-import json, os
+import hashlib, json, os, re
 from vlib import core, tracev
+
+
+def spec_scenarios(ctx):
+    """Txn.tla: design model (with and without the per-transaction epoch bump), its rejected mutant, the two-fault boundary, and every
+    finished application history of the driver-shaped configuration as a D-TXN scenario with what the specification says End reports."""
+    ctx.design("Txn", "Txn_bump.cfg", timeout=900, tag="txn_bump")
+    ctx.design("Txn", "Txn_nobump.cfg", timeout=900, tag="txn_nobump")
+    m = ctx.tlc("Txn", "Txn_mut.cfg", workers=4, timeout=600, tag="txn_mut", allow_fail=True)
+    ctx.notes["design_mutant_failed_producer_id_not_reloaded_rejected"] = "is violated" in m.out
+    m = ctx.tlc("Txn", "Txn_twofaults.cfg", workers=4, timeout=600, tag="txn_two", allow_fail=True)
+    ctx.notes["design_two_faults_on_one_EndTxn_unknowable_outcome_shown"] = "AbortMeansNever is violated" in m.out
+    out = []
+    for cfg, old in (("Txn_bump_gen.cfg", False), ("Txn_nobump_gen.cfg", True)):
+        r = ctx.tlc("Txn", cfg, workers=1, timeout=900, tag=cfg[:-4])
+        seen = set()
+        for mm in re.finditer(r'<<\s*"SCN",\s*(".*?")\s*>>', r.out, re.S):
+            h = json.loads(json.loads(re.sub(r"\n\s*", "", mm.group(1))))
+            txns, cur = [], None
+            for e in h["hist"]:
+                if e["op"] == "begin":
+                    cur = {"n": 0, "commit": True, "faults": [], "produceGap": False}
+                    txns.append(cur)
+                elif e["op"] == "produce" and e["ok"]:
+                    cur["n"] += 1
+                elif e["op"] == "produce":
+                    cur["produceGap"] = True
+                elif e["op"] == "end":
+                    cur["commit"] = e["commit"]
+                elif e["op"] == "lose":
+                    cur["faults"].append({"key": "endtxn", "kind": "dropresp", "n": 1})
+                elif e["op"] == "refuse":
+                    cur["faults"].append({"key": "endtxn", "kind": "fatal", "n": 1})
+            sc = {"seed": 0, "mode": "txn", "old": old, "txns": txns, "expect": {"report": h["report"], "visible": sorted(h["visible"])}}
+            k = json.dumps(sc, sort_keys=True)
+            if k not in seen:
+                seen.add(k)
+                out.append(sc)
+    if not out:
+        raise core.Infra("Txn.tla exported no scenarios")
+    if ctx.tier == "quick":
+        out = [s for i, s in enumerate(out) if int(hashlib.sha1(b"%d/%d" % (ctx.seed, i)).hexdigest(), 16) % 4 == 0]
+    return out
+
+
+def drive(ctx, env, tag):
+    rc, o = ctx.go_test("./dtxn/", run="TestScenarios", env=env, tags="verif,synctests", timeout=900)
+    rows = core.read_ndjson(env["VERIF_OUT"]) if os.path.exists(env["VERIF_OUT"]) else []
+    stats = [r for r in ctx.go_results(o) if r.get("kind") == "stat"]
+    if not stats and not rows:
+        raise core.Infra("txn driver (%s) produced no events:\n%s" % (tag, o[-3000:]))
+    if not stats:
+        rows.append({"ev": "driver_failed", "seq": 0, "output": o[-1500:]})
+    return rows
 
 
 def run(ctx, prop, n=None):
@@ -15,13 +68,42 @@ def run(ctx, prop, n=None):
         scf = os.path.join(ctx.work, "scenario.ndjson")
         core.write_ndjson(scf, [sc])
         env["VERIF_SCENARIOS"] = scf
-    rc, o = ctx.go_test("./dtxn/", run="TestScenarios", env=env, tags="verif,synctests", timeout=900)
-    rows = core.read_ndjson(out) if os.path.exists(out) else []
-    stats = [r for r in ctx.go_results(o) if r.get("kind") == "stat"]
-    if not stats and not rows:
-        raise core.Infra("txn driver produced no events:\n" + o[-3000:])
-    if not stats:
-        rows.append({"ev": "driver_failed", "seq": 0, "output": o[-1500:]})
+    rows = drive(ctx, env, "seeded")
+    nspec = 0
+    if mode == "eos" and not ctx.replay:
+        # design model of the consume-transform-produce loop under rebalances, with the "no rewind of kept partitions" mutant
+        ctx.design("Eos", "Eos_coop.cfg", timeout=1200, tag="eos_coop")
+        if ctx.tier == "thorough":
+            ctx.design("Eos", "Eos_eager.cfg", timeout=1500, tag="eos_eager")
+        m = ctx.tlc("Eos", "Eos_mut.cfg", workers=4, timeout=600, tag="eos_mut", allow_fail=True)
+        ctx.notes["design_mutant_abort_without_rewind_of_kept_partitions_rejected"] = "NoLoss is violated" in m.out
+    if mode == "txn" and not ctx.replay:
+        # scenarios exported from the design model, with the outcome the model predicts (binding R on top of V)
+        scs = spec_scenarios(ctx)
+        scf = os.path.join(ctx.work, "spec_scenarios.ndjson")
+        core.write_ndjson(scf, scs)
+        out2 = os.path.join(ctx.work, "txn_trace_spec.ndjson")
+        if os.path.exists(out2):
+            os.remove(out2)
+        rows2 = drive(ctx, {"VERIF_OUT": out2, "VERIF_MODE": mode, "VERIF_SCENARIOS": scf, "VERIF_N": len(scs)}, "spec")
+        for s in tracev.split_scenarios(rows2):
+            if not s or "scenario" not in s[0]:
+                continue
+            sc = json.loads(s[0]["scenario"])
+            exp = sc.get("expect")
+            if not exp or any(e["ev"] == "driver_failed" for e in s):
+                continue
+            nspec += 1
+            got = [e["outcome"] for e in s if e["ev"] == "txn_outcome"]
+            vis = [e["ids"] for e in s if e["ev"] == "visible"]
+            if got != exp["report"]:
+                ctx.violation("txn: EndTransaction reports differ from the specification", "EndTransaction reported %s for the transactions of the scenario, Txn.tla says %s (transactions: %s)"
+                              % (got, exp["report"], json.dumps(sc["txns"])), {"scenario": sc, "trace_prefix": s[-80:]})
+            elif vis and sorted(vis[-1]) != exp["visible"]:
+                ctx.violation("txn: visible records differ from the specification", "read_committed sees records %s, Txn.tla says %s (transactions: %s)"
+                              % (sorted(vis[-1]), exp["visible"], json.dumps(sc["txns"])), {"scenario": sc, "trace_prefix": s[-80:]})
+        ctx.notes["spec_scenarios_replayed"] = nspec
+        rows = rows + rows2
     accepted, rej = tracev.validate(ctx, "TxnTrace", "TxnTrace.cfg", "txn_trace.ndjson", rows, "txntrace")
     for s, line, why, ev in rej:
         sc = json.loads(s[0]["scenario"]) if s and "scenario" in s[0] else None
@@ -38,7 +120,9 @@ def run(ctx, prop, n=None):
     if mode == "txn":
         ctx.cov["rule"] = ("seeded transaction histories: 3-5 transactions of 0-3 records ending with commit or abort, each with up to 2 faults placed on Produce / EndTxn / InitProducerID / AddPartitionsToTxn"
                            " (response lost after the broker handled the request, connection killed before handling, retriable code, CONCURRENT_TRANSACTIONS, once or twice), the application retrying End as TryAbort after a failure,"
-                           " in a third of the runs producing one more record before that retry; a final clean committed transaction; read_committed reader at the end; validated against TxnTrace.tla. non-trivial = history with a fault")
+                           " in a third of the runs producing one more record before that retry; a final clean committed transaction; read_committed reader at the end; validated against TxnTrace.tla."
+                           " Plus %d application histories exported from the design model Txn.tla (3 transactions, <=3 records, <=2 EndTxn faults: answer lost after the marker was written / fatal code without handling,"
+                           " brokers with and without the KIP-890 epoch bump) run on the same driver, what EndTransaction reports and what read_committed sees compared with the model. non-trivial = history with a fault" % nspec)
     else:
         ctx.cov["rule"] = ("seeded GroupTransactSession pipelines (cooperative, range, KIP-848): 1-3 members consume 'in' (3 partitions), produce one record to 'out' per input inside a transaction and End(TryCommit);"
                            " members join and stop, input keeps arriving, faults on Produce / EndTxn / TxnOffsetCommit / AddOffsetsToTxn; after draining the read_committed view of 'out' must contain every input id exactly once. non-trivial = pipeline with a fault")
